@@ -91,6 +91,11 @@ func checkC05(c c05Case, r *vcore.Rec) *vcore.Failure {
 		}
 		for _, mode := range []string{"error", "crash_before", "crash_after"} {
 			errKind := ft.err
+			if call.Verb == "delete" && errKind == "notfound" {
+				// "not found" for the deletion of an object that exists would be a lie of the API server (the caller rightly takes the
+				// object for gone); a failing deletion is an internal error or a timeout
+				errKind = "timeout"
+			}
 			if call.Resource == "pods/binding" && mode == "error" {
 				errKind = "notfound" // any other error makes Bind sleep 500ms per retry; NotFound is the fast failing path
 			}
